@@ -70,6 +70,15 @@ Qed.
 Lemma die_inv : forall s, Inv s -> Inv (die s).
 Proof. intros [kc ko ka kn kq p h cs r nt lg sr ac cl li ot] H. unfold die. by_phase p. Qed.
 
+Ltac red_model :=
+  lazy beta iota zeta delta [conn_disconnect conn_unref funcs_disconnect shm_disconnect us_disconnect remove_tempdir
+    dir_empty with_held with_ph with_cst with_refc with_notified add_log with_svc with_kern
+    handle_new_connection funcs_connect acceptor auth_cleanup die
+    k_conn k_open k_auth k_notify k_reqq ph held cst refc notified log svc_ref active closedn listening others
+    fd_setup fd_req fd_evt pe_auth pe_setup pe_req ring_req ring_rsp ring_evt ctl_map ctl_file names dir authrec connobj
+    negb andb orb conn_res auth_res no_res].
+Ltac fin := repeat split; auto; try lia; try discriminate; try reflexivity.
+
 (* qb_ipcs_disconnect on an ESTABLISHED connection that nobody else references ends with everything released *)
 Lemma disconnect_established : forall s,
   Inv s -> conn_inv s ->
@@ -80,8 +89,7 @@ Proof.
   unfold conn_inv in HC; cbn in HC. destruct HC as (Hacc & Hh & Hcs & Hr & Hnt & (n & Hn & Hl) & Hsr).
   subst h cs r nt lg sr.
   unfold Inv in HI; cbn in HI. destruct HI as (Hli & Hot & Ha & Hk & Hq & _).
-  destruct tr; cbn; (repeat split; auto; try lia);
-    unfold Inv; cbn; (repeat split; auto; try lia);
+  destruct tr; unfold Inv, good_log; red_model; change (1 - 1 =? 0) with true; cbv iota; fin;
     right; right; exists n; split; auto; rewrite <- !app_assoc; reflexivity.
 Qed.
 
@@ -94,26 +102,24 @@ Lemma finish_wakeup_inv : forall need s,
   tr = Shm -> Inv (with_ph s PConn) -> conn_inv s ->
   let s' := finish_wakeup_read tr need s in
   Inv s' /\ k_open s' = k_open s /\ k_conn s' = k_conn s /\
-  (k_open s = false -> ph s' = PDone \/ (ph s' = PConn /\ need <= k_notify s)).
+  (k_open s = false -> ph s' = PDone \/ ph s' = PConn).
 Proof.
   intros need s Htr HI HC. unfold finish_wakeup_read.
   destruct (need <=? k_notify s) eqn:E.
   - apply Z.leb_le in E.
-    destruct s as [kc ko ka kn kq p h cs r nt lg sr ac cl li ot]. cbn in *.
-    (* need may be any integer in this lemma; the caller passes a count > 0; keep k_notify >= 0 only when need >= 0 *)
-    split; [| repeat split; auto].
-    + unfold Inv, conn_inv in *; cbn in *. intuition; try lia.
-      (* 0 <= kn - need is not implied for negative... handled by caller restriction below *)
-      all: try (destruct (Z_le_gt_dec 0 need); lia).
+    destruct s as [kc ko ka kn kq p h cs r nt lg sr ac cl li ot].
+    unfold Inv, conn_inv in *. red_model. cbn in HI, HC, E.
+    destruct HI as (A1 & A2 & A3 & A4 & A5 & _). destruct HC as (B1 & B2 & B3 & B4 & B5 & B6 & B7). fin.
   - destruct (k_open s) eqn:Eo.
-    + destruct s as [kc ko ka kn kq p h cs r nt lg sr ac cl li ot]. cbn in *.
-      split; [| repeat split; auto; discriminate].
-      unfold Inv, conn_inv in *; cbn in *. intuition.
-    + pose proof (disconnect_established (with_ph s PConn) HI) as D.
-      assert (HC' : conn_inv (with_ph s PConn)).
-      { destruct s; unfold conn_inv in *; cbn in *; exact HC. }
-      specialize (D HC'). cbn zeta in D. destruct D as (D1 & D2 & D3 & D4).
-      split; [exact D2|]. split; [destruct s; cbn in *; congruence|]. split; [destruct s; cbn in *; congruence|].
+    + destruct s as [kc ko ka kn kq p h cs r nt lg sr ac cl li ot].
+      unfold Inv, conn_inv in *. red_model. cbn in HI, HC, Eo.
+      destruct HI as (A1 & A2 & A3 & A4 & A5 & _). destruct HC as (B1 & B2 & B3 & B4 & B5 & B6 & B7). fin.
+    + assert (HC' : conn_inv (with_ph s PConn)) by (destruct s; unfold conn_inv in *; cbn in *; exact HC).
+      pose proof (disconnect_established (with_ph s PConn) HI HC') as D.
+      cbv zeta in D. destruct D as (D1 & D2 & D3 & D4).
+      assert (W1 : k_open (with_ph s PConn) = k_open s) by (destruct s; reflexivity).
+      assert (W2 : k_conn (with_ph s PConn) = k_conn s) by (destruct s; reflexivity).
+      split; [exact D2|]. split; [congruence|]. split; [congruence|].
       intros _. left. exact D1.
 Qed.
 
@@ -124,7 +130,8 @@ Lemma acceptor_inv : forall s, Inv s -> ph s = PNone ->
 Proof.
   intros [kc ko ka kn kq p h cs r nt lg sr ac cl li ot] H Hp. cbn in Hp. subst p.
   pose proof consts_ok as (C1 & _).
-  unfold Inv, acceptor, same_k in *; cbn in *. intuition (try lia). subst h. reflexivity.
+  unfold Inv in H; cbn in H. destruct H as (Hli & Hot & Ha & Hn & Hq & Hh & Hl & Hs). subst h lg li ot sr.
+  unfold Inv, same_k; red_model. fin.
 Qed.
 
 Lemma process_auth_inv : forall pin phup got s, Inv s -> ph s = PAuth got ->
@@ -134,26 +141,28 @@ Proof.
   intros pin phup got [kc ko ka kn kq p h cs r nt lg sr ac cl li ot] H Hp. cbn in Hp. subst p.
   unfold Inv in H; cbn in H. destruct H as (Hli & Hot & Ha & Hn & Hq & Hg & Hh & Hl & Hs). subst h lg li ot sr.
   unfold process_auth, same_k. destruct phup.
-  { cbn. unfold Inv, good_log; cbn. intuition (try lia). }
-  destruct pin; cbn [negb].
-  2:{ cbn. unfold Inv; cbn. intuition (try lia); discriminate. }
-  cbn [k_auth with_kern k_conn k_open k_notify k_reqq].
+  { unfold Inv, good_log; red_model. fin. }
+  destruct pin; cbv beta iota zeta delta [negb].
+  2:{ unfold Inv; red_model. fin. }
+  cbn [k_auth k_open k_conn k_notify k_reqq with_kern].
   set (take := Z.min ka (D_AUTH_LEN - got)).
   assert (Ht : 0 <= take <= ka /\ take <= D_AUTH_LEN - got) by (unfold take; lia).
   destruct (got + take =? D_AUTH_LEN) eqn:E.
   - (* whole request: handle_new_connection *)
-    unfold handle_new_connection; cbn.
+    unfold handle_new_connection.
     destruct (acc =? 0) eqn:Ea.
     + apply Z.eqb_eq in Ea.
-      destruct ko; cbn.
-      * destruct tr; unfold Inv, conn_inv; cbn; intuition (try lia; try discriminate);
-          exists 0; split; [lia| reflexivity].
-      * destruct tr; unfold Inv, good_log; cbn; intuition (try lia; try discriminate).
-    + destruct tr; unfold Inv, good_log; cbn; intuition (try lia; try discriminate).
-  - apply Z.eqb_neq in E. destruct ko; cbn.
-    + unfold Inv; cbn. intuition (try lia; try discriminate).
-    + unfold Inv, good_log; cbn. intuition (try lia; try discriminate).
+      destruct ko.
+      * unfold Inv, conn_inv; destruct tr; red_model; change (1 + 1 - 1) with 1; fin;
+          (exists 0; split; [lia| reflexivity]).
+      * unfold Inv, good_log; destruct tr; red_model; change (1 - 1 =? 0) with true; lazy iota; fin.
+    + unfold Inv, good_log; destruct tr; red_model; change (1 - 1 =? 0) with true; red_model; fin.
+  - apply Z.eqb_neq in E. destruct ko.
+    + unfold Inv; red_model. fin.
+    + unfold Inv, good_log; red_model. fin.
 Qed.
+
+Ltac same_state := split; [assumption|]; split; [split; reflexivity|]; split; [discriminate| intros; assumption].
 
 Lemma dispatch_request_inv : forall pin phup s, Inv s -> ph s = PConn ->
   let s' := dispatch_request tr pin phup s in
@@ -163,9 +172,11 @@ Proof.
   intros pin phup s H Hp.
   assert (HC : conn_inv s) by (unfold Inv in H; rewrite Hp in H; tauto).
   unfold dispatch_request. destruct phup.
-  { pose proof (disconnect_established s H HC) as D. cbn zeta in D. unfold same_k. intuition; discriminate. }
-  destruct pin; cbn [negb].
-  2:{ unfold same_k. intuition; discriminate. }
+  { pose proof (disconnect_established s H HC) as D. cbv zeta in D. unfold same_k.
+    destruct D as (D1 & D2 & D3 & D4).
+    split; [exact D2|]; split; [split; assumption|]; split; [intros _; exact D1| discriminate]. }
+  destruct pin; cbv beta iota zeta delta [negb].
+  2:{ unfold same_k. same_state. }
   pose proof consts_ok as (_ & C2 & _).
   assert (Hq : 0 <= k_reqq s) by (unfold Inv in H; tauto).
   set (avail := Z.min (k_reqq s) D_MAX_RECV_MSGS).
@@ -174,32 +185,40 @@ Proof.
   - (* shm *)
     destruct (avail =? 0) eqn:E0.
     + destruct (1 <=? k_notify s) eqn:E1.
-      * apply Z.leb_le in E1. destruct s as [kc ko ka kn kq p h cs r nt lg sr ac cl li ot]. cbn in *. subst p.
-        unfold Inv, conn_inv, same_k in *; cbn in *. intuition (try lia; try discriminate).
+      * apply Z.leb_le in E1. destruct s as [kc ko ka kn kq p h cs r nt lg sr ac cl li ot]. cbn in Hp, E1, Hq. subst p.
+        unfold Inv, conn_inv, same_k in *. red_model. cbn in H, HC.
+        destruct H as (A1 & A2 & A3 & A4 & A5 & _). destruct HC as (B1 & B2 & B3 & B4 & B5 & B6 & B7). fin.
       * destruct (k_open s) eqn:Eo.
-        { unfold same_k. intuition; discriminate. }
-        { pose proof (disconnect_established s H HC) as D. cbn zeta in D. unfold same_k. intuition; discriminate. }
+        { unfold same_k. same_state. }
+        { pose proof (disconnect_established s H HC) as D. cbv zeta in D. unfold same_k.
+          destruct D as (D1 & D2 & D3 & D4). rewrite Etr in D1, D2, D3, D4.
+          split; [exact D2|]; split; [split; assumption|]; split; discriminate. }
     + apply Z.eqb_neq in E0.
       set (s1 := add_log (with_kern s (k_conn s) (k_open s) (k_auth s) (k_notify s) (k_reqq s - avail)) (msgs_n avail)).
       assert (HC1 : conn_inv s1).
-      { destruct s as [kc ko ka kn kq p h cs r nt lg sr ac cl li ot]. unfold conn_inv in *; cbn in *.
+      { destruct s as [kc ko ka kn kq p h cs r nt lg sr ac cl li ot]. unfold conn_inv in *. unfold s1. red_model. cbn in HC.
         destruct HC as (A1 & A2 & A3 & A4 & A5 & (n & Hn & Hl) & A7). repeat split; auto.
         exists (n + avail). split; [lia|]. apply msgs_log_ext; auto; lia. }
       assert (HI1 : Inv (with_ph s1 PConn)).
-      { destruct s as [kc ko ka kn kq p h cs r nt lg sr ac cl li ot]. unfold conn_inv in HC1. cbn in *. subst p.
-        unfold Inv in *; cbn in *. unfold conn_inv; cbn. intuition lia. }
-      pose proof (finish_wakeup_inv avail s1 eq_refl HI1 HC1) as F. cbn zeta in F.
-      destruct F as (F1 & F2 & F3 & F4).
-      assert (K : k_open s1 = k_open s /\ k_conn s1 = k_conn s) by (destruct s; cbn; auto).
-      unfold same_k. split; [exact F1|]. split; [split; [destruct K; congruence | destruct K; congruence]|].
-      split; [discriminate | discriminate].
+      { destruct s as [kc ko ka kn kq p h cs r nt lg sr ac cl li ot]. unfold conn_inv in HC1. unfold s1 in *.
+        cbn in Hp, Hq, Hav. subst p.
+        unfold Inv in *. unfold conn_inv. red_model. cbn in H, HC1. destruct H as (A1 & A2 & A3 & A4 & A5 & _).
+        destruct HC1 as (B1 & B2 & B3 & B4 & B5 & B6 & B7). fin. }
+      pose proof (finish_wakeup_inv avail s1 Etr HI1 HC1) as F. cbv zeta in F.
+      destruct F as (F1 & F2 & F3 & F4). rewrite Etr in F1, F2, F3.
+      assert (K : k_open s1 = k_open s /\ k_conn s1 = k_conn s) by (destruct s; split; reflexivity).
+      destruct K as (K1 & K2).
+      unfold same_k. split; [exact F1|]. split; [split; congruence|].
+      split; discriminate.
   - (* socket *)
     destruct (avail =? 0) eqn:E0.
-    + unfold same_k. intuition; discriminate.
-    + destruct s as [kc ko ka kn kq p h cs r nt lg sr ac cl li ot]. cbn in *. subst p.
+    + unfold same_k. same_state.
+    + destruct s as [kc ko ka kn kq p h cs r nt lg sr ac cl li ot]. cbn in Hp, Hq. subst p.
       unfold conn_inv in HC; cbn in HC. destruct HC as (A1 & A2 & A3 & A4 & A5 & (n & Hn & Hl) & A7).
-      unfold Inv, conn_inv, same_k in *; cbn in *. intuition (try lia; try discriminate).
-      exists (n + avail). split; [lia|]. apply msgs_log_ext; auto; lia.
+      unfold Inv in H; cbn in H. destruct H as (I1 & I2 & I3 & I4 & I5 & _).
+      cbn in Hav.
+      unfold Inv, conn_inv, same_k. red_model. fin;
+        try (exists (n + avail); split; [lia | apply msgs_log_ext; auto; lia]).
 Qed.
 
 Lemma liveliness_inv : forall pin phup s, Inv s -> ph s = PConn ->
@@ -208,9 +227,13 @@ Lemma liveliness_inv : forall pin phup s, Inv s -> ph s = PConn ->
 Proof.
   intros pin phup s H Hp.
   assert (HC : conn_inv s) by (unfold Inv in H; rewrite Hp in H; tauto).
-  pose proof (disconnect_established s H HC) as D. cbn zeta in D.
-  unfold liveliness, same_k. destruct phup; [intuition|].
-  destruct pin; [destruct (k_open s)|]; intuition; discriminate.
+  pose proof (disconnect_established s H HC) as D. cbv zeta in D. destruct D as (D1 & D2 & D3 & D4).
+  unfold liveliness, same_k. destruct phup.
+  { split; [exact D2|]; split; [split; assumption|]; intros _; exact D1. }
+  destruct pin; [destruct (k_open s) eqn:Eo|].
+  - split; [assumption|]; split; [split; congruence| discriminate].
+  - split; [exact D2|]; split; [split; congruence| discriminate].
+  - split; [assumption|]; split; [split; reflexivity| discriminate].
 Qed.
 
 Lemma turn_at_inv : forall snap s, Inv s -> Inv (turn_at tr acc snap s) /\ same_k (turn_at tr acc snap s) s.
@@ -278,7 +301,7 @@ Proof.
     assert (HI1 : Inv (with_ph s PConn)).
     { destruct s as [kc ko ka kn kq p h cs r nt lg sr ac cl li ot]. unfold Inv in *; cbn in *. subst p. intuition. }
     pose proof (finish_wakeup_inv need s Htr HI1 HC) as (_ & _ & _ & F). cbn zeta in F.
-    destruct (F Ho) as [F1 | (F1 & _)]; unfold rank; rewrite F1; cbn; lia.
+    destruct (F Ho) as [F1 | F1]; unfold rank; rewrite F1; cbn; lia.
   - unfold rank. rewrite Hp. cbn. lia.
 Qed.
 
@@ -299,7 +322,7 @@ Proof.
   pose proof (turn_at_inv s s H) as (I1 & (O1 & _)). fold (turn tr acc s) in *.
   pose proof (progress s H Ho) as P1.
   assert (Ho1 : k_open (turn tr acc s) = false) by congruence.
-  pose proof (turn_at_inv _ _ I1) as (I2 & (O2 & _)). fold (turn tr acc (turn tr acc s)) in *.
+  pose proof (turn_at_inv (turn tr acc s) (turn tr acc s) I1) as (I2 & (O2 & _)). fold (turn tr acc (turn tr acc s)) in *.
   pose proof (progress _ I1 Ho1) as P2.
   assert (S2 : settled (turn tr acc (turn tr acc s))) by (unfold settled; lia).
   unfold quiesce. cbn [turns]. rewrite (settled_fix _ S2). rewrite (settled_fix _ S2).
